@@ -52,17 +52,18 @@ Inductive geom :=
 | GImage (r c : nat) (o : order)     (* Image2D / _DefaultGeometry2D (order C or F), Continuous2D (C) *)
 | GStep (cnt : list nat)             (* StepExpansion, projection 'mean': step i owns cnt_i consecutive nodes *)
 | GLin (npar nfun : nat) (G Ginv : list (list Qc))   (* linear expansion (KLExpansion): par2fun = G, fun2par = Ginv *)
-| GScale (c cinv : Qc) (g : geom).   (* MappedGeometry(g, map = c*., imap = cinv*.) *)
+| GScale (c cinv : Qc) (g : geom)    (* MappedGeometry(g, map = c*., imap = cinv*.) *)
+| GStepX (mx : bool) (cnt : list nat).   (* StepExpansion, projection 'max' (true) / 'min' (false): fun2par is not linear *)
 
 Fixpoint par_dim (g : geom) : nat :=
   match g with
   | GId n => n | GImage r c _ => r * c | GStep cnt => length cnt | GLin np _ _ _ => np
-  | GScale _ _ g' => par_dim g' end.
+  | GScale _ _ g' => par_dim g' | GStepX _ cnt => length cnt end.
 
 Fixpoint fun_dim (g : geom) : nat :=
   match g with
   | GId n => n | GImage r c _ => r * c | GStep cnt => fold_right Nat.add 0%nat cnt | GLin _ nf _ _ => nf
-  | GScale _ _ g' => fun_dim g' end.
+  | GScale _ _ g' => fun_dim g' | GStepX _ cnt => fold_right Nat.add 0%nat cnt end.
 
 (* the array a function value of this geometry is: an image for GImage, a vector otherwise *)
 Fixpoint funval (g : geom) (f : list Qc) : val :=
@@ -81,6 +82,17 @@ Fixpoint step_mean (cnt : list nat) (f : list Qc) : list Qc :=
   match cnt with
   | [] => []
   | k :: cnt' => (qsum (firstn k f) / qcz (Z.of_nat k)) :: step_mean cnt' (skipn k f)
+  end.
+
+(* np.max / np.min of a block (Python: raises on an empty block; the callers check the sizes first) *)
+Definition qcmax (a b : Qc) : Qc := if Qle_bool (this a) (this b) then b else a.
+Definition qcmin (a b : Qc) : Qc := if Qle_bool (this a) (this b) then a else b.
+Definition ext_of (mx : bool) (l : list Qc) : Qc :=
+  match l with [] => 0 | a :: l' => fold_left (if mx then qcmax else qcmin) l' a end.
+Fixpoint step_ext (mx : bool) (cnt : list nat) (f : list Qc) : list Qc :=
+  match cnt with
+  | [] => []
+  | k :: cnt' => ext_of mx (firstn k f) :: step_ext mx cnt' (skipn k f)
   end.
 
 (* par2fun.  None = the implementation raises.  The behaviour depends on the rank/shape of the array
@@ -104,6 +116,11 @@ Fixpoint p2f (g : geom) (v : val) : option val :=
       | V2 _ _ _ => None
       end
   | GScale c _ g' => option_map (vmap (qvscale c)) (p2f g' v)
+  | GStepX _ cnt =>
+      match v with
+      | V1 l => if (length l =? length cnt)%nat then Some (V1 (step_expand cnt l)) else None
+      | V2 _ _ _ => None
+      end
   end.
 
 (* fun2par *)
@@ -127,6 +144,12 @@ Fixpoint f2p (g : geom) (v : val) : option val :=
       | V2 _ _ _ => None
       end
   | GScale _ cinv g' => f2p g' (vmap (qvscale cinv) v)
+  | GStepX mx cnt =>
+      match v with
+      | V1 l => if ((length l =? fold_right Nat.add 0 cnt)%nat && forallb (fun k => 0 <? k)%nat cnt)
+                then Some (V1 (step_ext mx cnt l)) else None
+      | V2 _ _ _ => None
+      end
   end.
 
 (* ------------------------------------------------------------------------------------------ *)
